@@ -20,12 +20,14 @@ def intKOfName? : String → Option IntK
 
 def tyName : Ty → String
   | .bool => "b" | .int k => intKName k | .f32 => "f32" | .f64 => "f64" | .string => "s" | .struct => "st"
+  | .c64 => "c64" | .c128 => "c128" | .array => "ar" | .unsafePtr => "usp"
   | .slice => "sl" | .map => "mp" | .func => "fn" | .chan => "ch" | .ptr t => "p:" ++ tyName t | .any => "any"
   | .maybe t => "M:" ++ tyName t | .someDef t => "some:" ++ tyName t | .noneDef => "noneDef"
 
 /-- type name → type, from the `:`-separated components -/
 def tyOfParts : List String → Option Ty
   | [] => none
+  | ["c64"] => some .c64 | ["c128"] => some .c128 | ["ar"] => some .array | ["usp"] => some .unsafePtr
   | ["b"] => some .bool | ["f32"] => some .f32 | ["f64"] => some .f64 | ["s"] => some .string | ["st"] => some .struct
   | ["sl"] => some .slice | ["mp"] => some .map | ["fn"] => some .func | ["ch"] => some .chan | ["any"] => some .any
   | [x] => (intKOfName? x).map Ty.int
@@ -40,12 +42,13 @@ def goKindName : Kind → String
   | .int .int => "int" | .int .int8 => "int8" | .int .int16 => "int16" | .int .int32 => "int32" | .int .int64 => "int64"
   | .int .uint => "uint" | .int .uint8 => "uint8" | .int .uint16 => "uint16" | .int .uint32 => "uint32"
   | .int .uint64 => "uint64" | .int .uintptr => "uintptr"
+  | .c64 => "complex64" | .c128 => "complex128" | .array => "array" | .unsafePtr => "unsafe.Pointer"
   | .f32 => "float32" | .f64 => "float64" | .string => "string" | .struct => "struct" | .slice => "slice"
   | .map => "map" | .func => "func" | .chan => "chan" | .ptr => "ptr" | .iface => "interface"
 
 def allKinds : List Kind :=
   [.invalid, .bool, .int .int, .int .int8, .int .int16, .int .int32, .int .int64, .int .uint, .int .uint8, .int .uint16,
-   .int .uint32, .int .uint64, .int .uintptr, .f32, .f64, .string, .struct, .slice, .map, .func, .chan, .ptr, .iface]
+   .int .uint32, .int .uint64, .int .uintptr, .f32, .f64, .c64, .c128, .array, .unsafePtr, .string, .struct, .slice, .map, .func, .chan, .ptr, .iface]
 
 def kindOfName? (s : String) : Option Kind := allKinds.find? (fun k => goKindName k == s)
 
@@ -109,6 +112,10 @@ def decode : Nat → Heap → String → R (Heap × GoVal)
       | some "f64" => pure (h, .f64 (p.drop 1).toString)
       | some "s" => pure (h, .str (p.drop 1).toString)
       | some "st" => pure (h, .struct p.toInt!)
+      | some "c64" => pure (h, .c64 p.toInt!)
+      | some "c128" => pure (h, .c128 p.toInt!)
+      | some "ar" => pure (h, .array p.toInt!)
+      | some "usp" => pure (h, .unsafePtr (if p == "nil" then none else some p.toInt!))
       | some "sl" => pure (h, .slice (if p == "nil" then .nil else if p == "e" then .empty else .elems p.toInt!))
       | some "mp" => pure (h, .map (if p == "nil" then none else some p.toInt!))
       | some "fn" => pure (h, .func (if p == "nil" then none else some p.toInt!))
@@ -134,6 +141,11 @@ def render (h : Heap) : Nat → GoVal → String
     | .f64 b => "f64:x" ++ b
     | .str hx => "s:x" ++ hx
     | .struct k => "st:" ++ toString k
+    | .c64 k => "c64:" ++ toString k
+    | .c128 k => "c128:" ++ toString k
+    | .array k => "ar:" ++ toString k
+    | .unsafePtr none => "usp:nil"
+    | .unsafePtr (some k) => "usp:" ++ toString k
     | .slice .nil => "sl:nil"
     | .slice .empty => "sl:e"
     | .slice (.elems k) => "sl:" ++ toString k
